@@ -138,6 +138,20 @@ mut('M0 problem label dropped from the file name', 'C17',
                                                    self.problem, N, md5)''',
      '''            cache_fn = "{}/M0_{}_{}_{}.npy".format(self.cache_dir,
                                                    "p", N, str(elems)[:0] + md5[:0] + str(N))'''))
+mut('matrix memoised on the operator per (list objects, lengths)', 'C17',
+    (SL, '''    def bilform_matrix(self, elems_test=None, elems_trial=None, use_mp=False):
+        """ Returns the dense matrix <V 1_trial, 1_test>. """
+''', '''    def bilform_matrix(self, elems_test=None, elems_trial=None, use_mp=False):
+        if elems_test is None or elems_trial is None:
+            return self._bilform_matrix(elems_test, elems_trial, use_mp)
+        key = (id(elems_test), id(elems_trial), len(elems_test), len(elems_trial))
+        if getattr(self, '_memo', (None, ))[0] != key:
+            self._memo = (key, self._bilform_matrix(elems_test, elems_trial, use_mp))
+        return self._memo[1].copy()
+
+    def _bilform_matrix(self, elems_test=None, elems_trial=None, use_mp=False):
+        """ Returns the dense matrix <V 1_trial, 1_test>. """
+'''))
 # ---- C09 ------------------------------------------------------------------
 mut('accumulation glob_idx <= (self pair counted twice)', 'C09',
     (EE, '''                if elem.glob_idx < elem_nbr:
